@@ -49,6 +49,7 @@ Enabled(prod) ==
                                     "DictProj", "DictAttr", "First", "Count", "Add"}
       [] Fam = "beta"  -> prod \in {"Select", "SelectMany", "Where", "Beta", "BetaKw", "Beta2", "Count",
                                     "First", "Add", "Cmp"}
+      [] Fam = "betad" -> prod \in {"Select", "BetaDef", "Count", "First", "Add", "Cmp"}
       [] Fam = "expr"  -> prod \in {"Select", "Where", "First", "Count", "Add", "Mul", "Cmp", "If",
                                     "And", "Or", "Not", "Neg", "MethArgs", "MethKw", "Func", "True",
                                     "Sum"}
@@ -68,7 +69,7 @@ Enabled(prod) ==
       [] Fam = "comp"  -> prod \in {"Comp", "Select", "Count", "Sum", "Cmp", "Add", "First"}
       [] Fam = "helper" -> prod \in {"Select", "Where", "SelectMany", "Helper", "Add", "Cmp", "Count", "First"}
       [] Fam = "e2e"   -> prod \in {"Select", "Where", "SelectMany", "First", "Count", "Add", "Mul", "Cmp", "If",
-                                    "TupProj", "MethArgs", "MethKw", "Sum", "And"}
+                                    "TupProj", "MethArgs", "MethKw", "Sum", "And", "BetaDef"}
       [] Fam = "all"   -> prod \notin {"OtherMeth", "KwOp", "AggOdd", "MD", "OutIdx", "AbsentKey", "Comp", "Helper"}
       [] OTHER -> FALSE
 
@@ -189,6 +190,18 @@ NonLeaf(h) ==
                  <<>>, <<z, x>>, <<Hole("Int", sp[1], ns, ss), Hole("Int", sp[2], ns, ss)>>) :
               sp \in Split3(r), x \in {"x"}, z \in {"y"}}
        ELSE {}) \cup
+      (* called lambda with two defaulted parameters: both given / the later one left to its default / *)
+      (* the earlier one left and the later one given by keyword                                      *)
+      (IF s = "Int" /\ Enabled("BetaDef") THEN
+          LET lam3(bh) == T("lam", "", 2, <<"x", "y", "z">>,
+                            <<BinOp("+", BinOp("*", Name("x"), IntC(100)), BinOp("+", BinOp("*", Name("y"), IntC(10)), bh)),
+                              IntC(2), IntC(7)>>)
+              bodyHole(b2) == Hole("Int", b2, ns \o <<"x", "y", "z">>, ss \o <<SortT("Int"), SortT("Int"), SortT("Int")>>)
+          IN {CallP(lam3(bodyHole(sp[3])), <<Hole("Int", sp[1], ns, ss), Hole("Int", sp[2], ns, ss)>>) : sp \in Split3(r)}
+             \cup {CallP(lam3(bodyHole(sp[2])), <<Hole("Int", sp[1], ns, ss)>>) : sp \in Split2(r)}
+             \cup {CallK(lam3(bodyHole(sp[3])), <<Hole("Int", sp[1], ns, ss)>>, <<"z">>, <<Hole("Int", sp[2], ns, ss)>>) :
+                       sp \in Split3(r)}
+       ELSE {}) \cup
       (IF s = "Int" /\ Enabled("Beta2") THEN
           {CallP(Lam(<<x, z>>, Hole("Int", sp[3], ns \o <<x, z>>, ss \o <<SortT("Int"), SortT("Jet")>>)),
                  <<Hole("Int", sp[1], ns, ss), Hole("Jet", sp[2], ns, ss)>>) :
@@ -303,7 +316,10 @@ NonLeaf(h) ==
               sp \in Split2(r)} \cup
           {CallK(Name("h_kw"), <<Hole("Int", sp[1], ns, ss)>>, <<"y">>, <<Hole("Int", sp[2], ns, ss)>>) :
               sp \in Split2(r)} \cup
-          {CallK(Name("h_kw"), <<>>, <<"x">>, <<Hole("Int", r, ns, ss)>>)}
+          {CallK(Name("h_kw"), <<>>, <<"x">>, <<Hole("Int", r, ns, ss)>>)} \cup
+          {Fn("h_d3", <<Hole("Int", r, ns, ss)>>)} \cup
+          {Fn("h_d3", <<Hole("Int", sp[1], ns, ss), Hole("Int", sp[2], ns, ss)>>) : sp \in Split2(r)} \cup
+          {CallK(Name("h_d3"), <<Hole("Int", sp[1], ns, ss)>>, <<"z">>, <<Hole("Int", sp[2], ns, ss)>>) : sp \in Split2(r)}
        ELSE {}) \cup
       (* ---- booleans ---- *)
       (IF s = "Bool" /\ Enabled("Cmp") THEN
